@@ -292,6 +292,19 @@ def run(repo: Repo, rep: Report, tier: str) -> None:
     rep.rule("provider-survives", "ARTIM cannot expire in the release states (Sta7-Sta12) unless Table 9-10 defines Evt18 there (C05's artim rule)")
     delegate(repo, rep, tier, "C05", ("artim",), "provider-survives", "the provider thread dies between the peer's A-RELEASE-RQ and pynetdicom's answer: neither A-RELEASE-RP nor A-ABORT is ever sent", only=lambda f: any(f"Sta{k}" in (f["key"].get("stmt", "") + f["detail"]) for k in (7, 8, 9, 10, 11, 12)))
     delegate(repo, rep, tier, "C04", ("artim-run-state",), "provider-survives", "a timer the state machine stopped is running again: ARTIM expires in an established association (Sta6 has no transition for Evt18), the provider thread dies and a later A-RELEASE-RQ gets neither A-RELEASE-RP nor A-ABORT")
+    # in every pass the association's reactor looks for a pending release request (and abort) before it acts on the
+    # network timeout: a request that has waited longer than the timeout must still be answered, not met with a
+    # release / abort of our own (release() in Sta8 is an undefined event and kills the provider)
+    from ..cfg import CFG as _CFG7, calls_at as _calls7
+    rr7 = repo.func("association", "Association._run_reactor")
+    cfg7 = _CFG7(rr7, body=body_nodoc(rr7), may_raise=lambda n_: False)
+    rl7 = [n_ for n_ in cfg7.nodes if n_.kind in ("stmt", "test") and any(isinstance(c_.func, ast.Attribute) and c_.func.attr == "is_release_requested" for c_ in _calls7(n_))]
+    it7 = [n_ for n_ in cfg7.nodes if n_.kind in ("stmt", "test") and any(isinstance(c_.func, ast.Attribute) and c_.func.attr == "idle_timer_expired" for c_ in _calls7(n_))]
+    rep.rule("release-before-timeout", "in each pass of the association reactor a pending release request is answered before the network timeout is acted on")
+    if rl7 and it7:
+        rep.check(all(any(cfg7.dominates(r_, t_, labels_excluded=("loop", "continue")) for r_ in rl7) for t_ in it7), "release-before-timeout", "association.Association._run_reactor", "is_release_requested() checked before idle_timer_expired() in each pass", "the network timeout is acted on before the pending release request is looked at: a peer's A-RELEASE-RQ that has waited longer than the timeout is met with our own release() / abort() instead of an A-RELEASE-RP - with network_timeout_response = 'A-RELEASE' that is Evt11 in Sta8, an undefined event, and the peer gets neither response nor abort", mod=repo.mod("association"), node=it7[0].ast)
+    else:
+        rep.defer("association.Association._run_reactor: release / idle-timeout checks not found")
     rep.rule("request-reaches-action", "every received PDU is queued together with its event, so AR-2 takes the A-RELEASE-RQ it was raised for (C03's one-per-call)")
     delegate(repo, rep, tier, "C03", ("one-per-call",), "request-reaches-action", "a PDU queued without its event stays on _recv_pdu; when the peer's A-RELEASE-RQ arrives AR-2 pops the stale PDU instead, no release indication reaches the association and neither A-RELEASE-RP nor A-ABORT is sent")
 
